@@ -254,6 +254,16 @@ add("rec-merge-del-ins", "%start S\n%%\nS: 'a' Opt 't' 'z' 'c';\nOpt: | 'u' 'b';
     inputs=["a b c", "a b z c", "a c", "a b", "a u c", "a t c", "b c", "a b b c"])
 add("rec-merge-del-ins2", "%start S\n%%\nOpt: | 'u' 'b';\nS: 'a' Opt 't' 'z' 'c';\n", tags=["rec"],
     inputs=["a b c", "a b z c", "a c", "a b", "a u c", "a t c", "b c", "a b b c"])
+# after inserting 'p z' or 'q z' the stacks are equally deep and end in the same state but differ
+# below it: only one of the two repairs (search nodes must compare the whole stack)
+add("rec-same-top-state", "%start S\n%%\nS: 'p' T 'u' 'k' 'k' 'k' | 'q' T 'v' 'k' 'k' 'k';\nT: 'z' 'w';\n", tags=["rec"],
+    inputs=["w v k k k", "w u k k k", "z w v k k k", "p z w v k k k", "w k k k"])
+# a shift/reduce conflict settled by precedence in favour of the REDUCE, in a state entered by a
+# token shift: the token still has an action there and must be tried as an insert
+add("rec-prec-reduce-insert", "%start S\n%left 'b'\n%left 'a'\n%%\nS: A 'b' 'c' | 'a' 'b' 'd';\nA: 'a';\n", tags=["rec", "prec"],
+    inputs=["a b c", "a c", "a d", "a b", "a"])
+add("rec-prec-reduce-insert2", "%start S\n%left 'b'\n%left 'a'\n%%\nS: A 'b' 'c' | 'a' 'b' 'd' | 'a' 'e' 'e' 'c';\nA: 'a';\n", tags=["rec", "prec"],
+    inputs=["a c", "a e c", "a b c"])
 # an avoided token inserted after a non-avoided one: the sequence still ranks behind the others
 add("rec-avoid-second", "%start X\n%avoid_insert 'q'\n%%\nX: 'p' 'q' | 'r' 's' 'w';\n", tags=["rec"],
     inputs=["", "p", "r", "q", "w", "s w", "r w", "p w"], costs=[1, 2, 1, 1, 1, 1])
